@@ -1,2 +1,2 @@
     requires spec_tx_action_id(*packet) is Some, //@ C04:tx_action_id_defined_for_packet
-    ensures r == spec_tx_action_id(*packet)->Some_0, //@ C05:tx_action_id_is_the_key_of_the_expected_acknowledgement
+    ensures r == spec_tx_action_id(*packet)->Some_0, //@ C05+C06:tx_action_id_is_the_key_of_the_expected_acknowledgement
